@@ -1880,3 +1880,424 @@ func c07KeyOfObtainedKeySpec(w *World, a *c07TableApp) bool {
 	}
 	return labelHas(w.Info(a.In).GuardsOf(a.At), "EQ("+desc(src)+"#err,nil)")
 }
+
+// ---- the generator is evaluated at most once ---------------------------------------------------
+//
+// Clause: "a signature produced by the signing API for a blob verifies; the verified payload equals the signed descriptor
+// of the content". A notation.BlobDescriptorGenerator is not a pure function of the digest algorithm: the one the
+// wrappers build reads the caller's io.Reader to its end. Whoever evaluates it a second time on the same path is handed
+// the descriptor of an exhausted stream (digest of zero bytes, size 0), so either the payload that is signed or the
+// descriptor the signature is compared with no longer describes the blob. Hence the necessary condition, for every
+// function of the module that holds a generator (as parameter, captured variable, result of a call, function value it
+// makes, or inside an object it holds):
+//
+//	on no path through the function is the generator evaluated twice,
+//
+// where "evaluated" is decided on SSA values and callee-ward over the call tree: a direct call of the value (or of a
+// function value made from it: a closure that captures it and may evaluate it, a bound method of an object holding it),
+// handing it to an interface method or to a function outside the module (they are entitled to evaluate it), and handing
+// it to a module function that — by the same analysis of that function's parameter — may evaluate it. The value is
+// followed through conversions, phis, locals (also captured ones), struct fields of local objects, helper results that
+// hand a parameter back, closures and bound methods; where a statement stands or what anything is called plays no part.
+// Two evaluations in different branches (one signer delegates, the other branch evaluates itself) are not on one path
+// and are accepted; so is any number of helpers between the holder and the single evaluation.
+
+type c07OnceKey struct {
+	fn   *ssa.Function
+	root ssa.Value
+	path string // field path ("2.0.") from the root (dereferenced) to the generator; "" = the root is the generator
+}
+
+type c07OnceUse struct {
+	at  ssa.Instruction
+	how string
+}
+
+type c07OnceRes struct {
+	busy  bool
+	uses  []c07OnceUse    // instructions of fn that may evaluate the generator
+	ret   map[int]bool    // results of fn that are the generator (or a function value that may evaluate it)
+	esc   []string        // where the generator gets out of sight (its evaluations can no longer be counted)
+	twice [][2]c07OnceUse // pairs (first, second) with second reachable from first
+	reach map[int][]bool  // block index -> blocks reachable from its successors
+}
+
+type c07Once struct {
+	w     *World
+	memo  map[c07OnceKey]*c07OnceRes
+	order []c07OnceKey
+}
+
+const c07OnceDepth = 10
+
+// c07GenPaths: the field paths under which a value of type t (pointers dereferenced) holds a BlobDescriptorGenerator.
+func c07GenPaths(t types.Type, depth int) []string {
+	for {
+		p, ok := t.Underlying().(*types.Pointer)
+		if !ok {
+			break
+		}
+		t = p.Elem()
+	}
+	if namedOf(t) == "ngo.BlobDescriptorGenerator" {
+		return []string{""}
+	}
+	st, ok := t.Underlying().(*types.Struct)
+	if !ok || depth >= 2 {
+		return nil
+	}
+	var out []string
+	for i := 0; i < st.NumFields(); i++ {
+		ft := st.Field(i).Type()
+		if _, isPtr := ft.Underlying().(*types.Pointer); isPtr && depth >= 1 {
+			continue
+		}
+		for _, sub := range c07GenPaths(ft, depth+1) {
+			out = append(out, fmt.Sprintf("%d.", i)+sub)
+		}
+	}
+	return out
+}
+
+func (o *c07Once) analyse(fn *ssa.Function, root ssa.Value, path string, depth int) *c07OnceRes {
+	key := c07OnceKey{fn, root, path}
+	if r := o.memo[key]; r != nil {
+		return r
+	}
+	res := &c07OnceRes{busy: true, ret: map[int]bool{}, reach: map[int][]bool{}}
+	o.memo[key] = res
+	o.order = append(o.order, key)
+	w := o.w
+	type item struct {
+		v ssa.Value
+		p string
+	}
+	seen := map[item]bool{}
+	var work []item
+	push := func(v ssa.Value, p string) {
+		it := item{v, p}
+		if v != nil && !seen[it] {
+			seen[it] = true
+			work = append(work, it)
+		}
+	}
+	usedAt := map[ssa.Instruction]bool{}
+	use := func(in ssa.Instruction, how string) {
+		if !usedAt[in] {
+			usedAt[in] = true
+			res.uses = append(res.uses, c07OnceUse{in, how})
+		}
+	}
+	escape := func(in ssa.Instruction, what string) {
+		res.esc = append(res.esc, what+" at "+w.InstrPos(in))
+	}
+	push(root, path)
+	for len(work) > 0 {
+		it := work[0]
+		work = work[1:]
+		v, p := it.v, it.p
+		refs := v.Referrers()
+		if refs == nil {
+			continue
+		}
+		for _, r := range *refs {
+			if r.Parent() != fn {
+				continue
+			}
+			switch x := r.(type) {
+			case *ssa.ChangeType:
+				push(x, p)
+			case *ssa.Convert:
+				push(x, p)
+			case *ssa.ChangeInterface:
+				push(x, p)
+			case *ssa.Phi:
+				push(x, p)
+			case *ssa.UnOp:
+				if x.Op == token.MUL && x.X == v {
+					push(x, p)
+				}
+			case *ssa.FieldAddr:
+				if pre := fmt.Sprintf("%d.", x.Field); x.X == v && strings.HasPrefix(p, pre) {
+					push(x, strings.TrimPrefix(p, pre))
+				}
+			case *ssa.Field:
+				if pre := fmt.Sprintf("%d.", x.Field); x.X == v && strings.HasPrefix(p, pre) {
+					push(x, strings.TrimPrefix(p, pre))
+				}
+			case *ssa.Store:
+				if x.Val != v {
+					continue // something is written over / into the holder
+				}
+				// the holder of the value: a local, or a field (of a field ...) of an object
+				addr, q := x.Addr, p
+				for {
+					fa, ok := addr.(*ssa.FieldAddr)
+					if !ok {
+						break
+					}
+					q = fmt.Sprintf("%d.", fa.Field) + q
+					addr = fa.X
+				}
+				switch a := addr.(type) {
+				case *ssa.Alloc:
+					push(a, q)
+				case *ssa.UnOp:
+					// the object is reached through a local that holds its address
+					if al, ok := a.X.(*ssa.Alloc); ok && a.Op == token.MUL {
+						push(al, q)
+					}
+					push(a, q)
+				case *ssa.Call, *ssa.Extract, *ssa.Phi:
+					// an object some function handed out (a constructor's result): followed inside this function
+					push(a, q)
+				default:
+					escape(x, "the generator is stored into "+desc(x.Addr))
+				}
+			case *ssa.MapUpdate:
+				if x.Value == v {
+					escape(x, "the generator is stored into a map")
+				}
+			case *ssa.Send:
+				if x.X == v {
+					escape(x, "the generator is sent on a channel")
+				}
+			case *ssa.Return:
+				for k, rv := range x.Results {
+					if rv != v {
+						continue
+					}
+					if p == "" {
+						res.ret[k] = true
+					} else {
+						escape(x, "an object holding the generator is returned")
+					}
+				}
+			case *ssa.MakeClosure:
+				cl, ok := x.Fn.(*ssa.Function)
+				if !ok {
+					continue
+				}
+				for j, b := range x.Bindings {
+					if b != v || j >= len(cl.FreeVars) {
+						continue
+					}
+					if depth >= c07OnceDepth {
+						escape(x, "the closure capturing the generator is too deep to follow")
+						continue
+					}
+					sub := o.analyse(cl, cl.FreeVars[j], p, depth+1)
+					res.esc = append(res.esc, sub.esc...)
+					if sub.busy || len(sub.uses) > 0 {
+						// a function value that evaluates the generator when it is called
+						push(x, "")
+					}
+				}
+			case ssa.CallInstruction:
+				cc := x.Common()
+				if !cc.IsInvoke() && cc.Value == v && p == "" {
+					use(x, "evaluates it")
+				}
+				for i, a := range cc.Args {
+					if a != v {
+						continue
+					}
+					if cc.IsInvoke() {
+						use(x, "hands it to "+calleeName(x))
+						continue
+					}
+					if _, isB := cc.Value.(*ssa.Builtin); isB {
+						continue
+					}
+					callee := cc.StaticCallee()
+					if callee == nil {
+						use(x, "hands it to the function value "+desc(cc.Value))
+						continue
+					}
+					if callee.Blocks == nil || !w.IsProductFn(callee) {
+						if p == "" {
+							use(x, "hands it to "+fnName(callee))
+						}
+						continue
+					}
+					if i >= len(callee.Params) {
+						continue
+					}
+					if depth >= c07OnceDepth {
+						use(x, "hands it to "+fnName(callee)+" (too deep to follow)")
+						continue
+					}
+					sub := o.analyse(callee, callee.Params[i], p, depth+1)
+					res.esc = append(res.esc, sub.esc...)
+					if sub.busy {
+						use(x, "hands it to "+fnName(callee)+" (recursive)")
+					} else if len(sub.uses) > 0 {
+						use(x, "hands it to "+fnName(callee)+", which "+sub.uses[0].how+" ("+w.InstrPos(sub.uses[0].at)+")")
+					}
+					if call, isCall := x.(*ssa.Call); isCall && len(sub.ret) > 0 {
+						if callee.Signature.Results().Len() == 1 {
+							push(call, "")
+						} else if crefs := call.Referrers(); crefs != nil {
+							for _, cr := range *crefs {
+								if ex, ok := cr.(*ssa.Extract); ok && sub.ret[ex.Index] {
+									push(ex, "")
+								}
+							}
+						}
+					}
+				}
+			}
+		}
+	}
+	res.busy = false
+	// no evaluation is reachable from an evaluation (itself included: a loop). A generator the function itself obtains
+	// (a call's result, a function value it makes) is a new one each time its definition executes: a path that passes
+	// the definition again does not evaluate the same generator twice (one generator per blob inside a loop over blobs).
+	var def *ssa.BasicBlock
+	if in, ok := root.(ssa.Instruction); ok && in.Parent() == fn {
+		def = in.Block()
+	}
+	sort.Slice(res.uses, func(i, j int) bool {
+		a, b := res.uses[i].at, res.uses[j].at
+		if a.Block().Index != b.Block().Index {
+			return a.Block().Index < b.Block().Index
+		}
+		return instrIndex(a) < instrIndex(b)
+	})
+	for _, u1 := range res.uses {
+		for _, u2 := range res.uses {
+			if c07Follows(res, u1.at, u2.at, def) {
+				res.twice = append(res.twice, [2]c07OnceUse{u1, u2})
+			}
+		}
+	}
+	return res
+}
+
+// c07Follows: instruction b can execute after instruction a on some path of their function (b == a: on a cycle) that does
+// not enter the block def (the block that defines the value both instructions use; nil: defined on entry).
+func c07Follows(res *c07OnceRes, a, b ssa.Instruction, def *ssa.BasicBlock) bool {
+	ba, bb := a.Block(), b.Block()
+	if ba == bb && instrIndex(a) < instrIndex(b) {
+		return true
+	}
+	r, ok := res.reach[ba.Index]
+	if !ok {
+		r = make([]bool, len(ba.Parent().Blocks))
+		stack := append([]*ssa.BasicBlock{}, ba.Succs...)
+		for len(stack) > 0 {
+			n := stack[len(stack)-1]
+			stack = stack[:len(stack)-1]
+			if r[n.Index] || n == def {
+				continue
+			}
+			r[n.Index] = true
+			stack = append(stack, n.Succs...)
+		}
+		res.reach[ba.Index] = r
+	}
+	return r[bb.Index]
+}
+
+// c07GeneratorOnce: every function of the module that holds a blob descriptor generator evaluates it at most once on
+// every path (see the comment at the head of this section for why this is the clause and which shapes are accepted).
+func c07GeneratorOnce(c *Ctx) {
+	w := c.W
+	const prefix = "blob-descriptor/generator-called-once/"
+	const rule = "the blob descriptor generator is evaluated at most once on every path (directly, through a function value made from it, or inside a function / interface method it is handed to): " +
+		"it reads the caller's one-shot io.Reader to its end, so a second evaluation describes an exhausted stream and the payload that is signed (or the descriptor the signature is compared with) is no longer the descriptor of the blob"
+	o := &c07Once{w: w, memo: map[c07OnceKey]*c07OnceRes{}}
+	for _, fn := range w.Funcs {
+		var roots []ssa.Value
+		for _, p := range fn.Params {
+			roots = append(roots, p)
+		}
+		for _, fv := range fn.FreeVars {
+			roots = append(roots, fv)
+		}
+		for _, b := range fn.Blocks {
+			for _, in := range b.Instrs {
+				switch x := in.(type) {
+				case *ssa.Call:
+					if _, isTuple := x.Type().(*types.Tuple); !isTuple {
+						roots = append(roots, x)
+					}
+				case *ssa.Extract, *ssa.Lookup, *ssa.TypeAssert, *ssa.Alloc:
+					roots = append(roots, x.(ssa.Value))
+				case *ssa.UnOp:
+					// a generator read from a package-level variable
+					if _, isG := x.X.(*ssa.Global); isG && x.Op == token.MUL {
+						roots = append(roots, x)
+					}
+				case *ssa.ChangeType:
+					// a function value the function makes into a generator (a literal, a bound method, a declared function)
+					if namedOf(x.Type()) == "ngo.BlobDescriptorGenerator" && namedOf(x.X.Type()) != "ngo.BlobDescriptorGenerator" {
+						if mc, ok := x.X.(*ssa.MakeClosure); ok {
+							roots = append(roots, mc)
+						} else {
+							roots = append(roots, x)
+						}
+					}
+				}
+			}
+		}
+		for _, r := range roots {
+			t := r.Type()
+			if _, isMC := r.(*ssa.MakeClosure); isMC {
+				o.analyse(fn, r, "", 0)
+				continue
+			}
+			for _, p := range c07GenPaths(t, 0) {
+				o.analyse(fn, r, p, 0)
+			}
+		}
+	}
+	evaluates := map[*ssa.Function]bool{}
+	for _, k := range o.order {
+		res := o.memo[k]
+		if len(res.uses) == 0 && len(res.esc) == 0 {
+			continue
+		}
+		c.SeenFn(k.fn.String())
+		c.Evals += len(res.uses)
+		if len(res.uses) > 0 {
+			evaluates[k.fn] = true
+		}
+		key := prefix + fnName(k.fn)
+		what := "the generator " + desc(k.root)
+		if k.path != "" {
+			what = "the generator held by " + desc(k.root)
+		}
+		switch {
+		case len(res.twice) > 0:
+			t := res.twice[0]
+			detail := fmt.Sprintf("%s may be evaluated twice on one path: %s first %s (%s) and then %s (%s)", what, fnName(k.fn), t[0].how, w.InstrPos(t[0].at), t[1].how, w.InstrPos(t[1].at))
+			if t[0].at == t[1].at {
+				detail = fmt.Sprintf("%s may be evaluated repeatedly: %s %s inside a loop (%s)", what, fnName(k.fn), t[0].how, w.InstrPos(t[0].at))
+			}
+			c.Bad(key, rule, w.InstrPos(t[1].at), detail, w.InstrPos(t[0].at), w.InstrPos(t[1].at))
+		case len(res.esc) > 0:
+			c.Unk(key, rule, w.FnPos(k.fn), "the evaluations of "+what+" cannot be counted: "+res.esc[0])
+		default:
+			c.OK(key, rule, w.FnPos(k.fn))
+		}
+	}
+	// anchors: the two wrappers that build the generator and every implementation of the signer / verifier interfaces
+	// that receive it do evaluate it or hand it on (otherwise the rule above has looked at nothing)
+	var anchors []*ssa.Function
+	for _, name := range []string{"SignBlob", "VerifyBlob"} {
+		if fn := w.Func("", name); fn != nil {
+			anchors = append(anchors, fn)
+		} else {
+			c.Unk(prefix+"ngo."+name, "anchor: notation."+name, "-", "not found")
+		}
+	}
+	anchors = append(anchors, w.implementers("", "BlobSigner", "SignBlob")...)
+	anchors = append(anchors, w.implementers("", "BlobVerifier", "VerifyBlob")...)
+	for _, fn := range anchors {
+		if !evaluates[fn] {
+			c.Unk(prefix+fnName(fn), rule, w.FnPos(fn), "anchor: this function is handed (or builds) a blob descriptor generator, but no evaluation of it and no hand-over was found on its call tree")
+		}
+	}
+	c.MinCount(strings.TrimSuffix(prefix, "/"), 4, "functions holding a blob descriptor generator (the two wrappers, a signer, a verifier)")
+}
